@@ -188,7 +188,25 @@ def run_trees(pid, tier, seed):
     return res
 
 
+def run_compose(pid, tier, seed):
+    vh = vlib.build_harness()
+    r1 = []
+    states_path, c, states = vlib.emit_states()
+    r1.append(c)
+    r1.append(vlib.model_check("MC_Compose.tla", "MC_Compose_thorough.cfg" if tier == "thorough" else "MC_Compose.cfg"))
+    walks, nwalks = spec_walks(tier, seed)
+    g = vlib.run_gen(vh, "compose", tier, seed, states=states_path, walks=walks)
+    res = {"r1": r1, "gens": [g]}
+    if "hang" in g:
+        res["hang"] = g["hang"]
+        return res
+    bads, consumed, notes = vlib.validate("TraceCompose.tla", "TraceCompose.cfg", g["files"], xmx="3g")
+    res.update(bads=bads, consumed=consumed, notes=notes)
+    return res
+
+
 FAMILIES = {
+    "compose": {"run": run_compose},
     "trees": {"run": run_trees},
     "floats": {"run": run_floats},
     "values": {"run": run_values},
@@ -344,6 +362,19 @@ CHECKS.update({
                           "when the grammar accepts, depth <= 10000 and no number overflows; encoding/json's tree must match after the "
                           "specification's UTF-8 replacement.",
             "level_note": MC_NOTE + "; trees deeper than 200 are checked for success/offset only (recorded as 'big')"},
+})
+
+CHECKS.update({
+    "C08": {"family": "compose", "level": "model_checking",
+            "rule": "decoders = 8 program kinds (all-typed, all-SkipValue, all-SkipValueFast, all-return-0, ValueReader, Decode forms, random "
+                    "mixes with and without SkipValueFast) with a recorded per-member choice stream, nil or re-entrantly shared Buffer; "
+                    "documents = tree shapes, (machine states x byte classes x completion), TLC walks, corpus, random documents and "
+                    "mutations; distinct = distinct (document, program kind, seed); non-trivial = at least one member choice",
+            "technique": "TLA+ compositionality invariant (member slices re-parse to the same subtree/offset, R1 exhaustive) + TLC validation of recorded API-composition decoders (R3)",
+            "level_text": "R1 proves on all structural strings up to the bound that every member slice parses on its own to the member's "
+                          "subtree and end offset; the recorded decoders (written only against the public API) are checked by TLC for "
+                          "final offset, reconstructed tree, and rejection by validating programs.",
+            "level_note": MC_NOTE},
 })
 
 NOT_APPLICABLE = {}
